@@ -351,6 +351,16 @@ func genRandom(r *rng.R, maxCallers, maxLen int) fw.Case {
 		m.apply(st)
 		sched = append(sched, st)
 	}
+	// a tail of further `w` steps: no-ops for the real protocol (and the model); they let a variant
+	// that sends MORE requests per call (re-reads, retries) run to completion instead of staying parked
+	if r.P(1, 3) {
+		for k := r.Range(1, 2*n); k > 0; k-- {
+			st := stepC("w", r.N(n))
+			m.apply(st)
+			sched = append(sched, st)
+		}
+		tags = append(tags, "extra-w-tail")
+	}
 	tags = append(tags, fmt.Sprintf("callers=%d", n), fmt.Sprintf("len~%d", (length+9)/10*10))
 	if lowered {
 		tags = append(tags, "foreign-lowers")
